@@ -57,16 +57,18 @@ PROPS['C15'] = {
 PROPS['C20'] = {
     'level': 'proof', 'claimed': True,
     'claim': 'weakest pre-expectation argument for the two reservoir samplers (tips: cmd.randomTips; trees: gotree sample, with and without replacement): the real loop bodies are proved, for every state and every draw r, to be exactly the abstract reservoir step (one draw uniform in [0, #seen+1) resp. [0,#seen); slot r replaced iff r < k resp. r == 0; all other slots unchanged), and the lemmas prove by real arithmetic that this step preserves the invariant expectation Pr[element in sample] = k/#seen (resp. 1/#seen per slot) and that no other draw range does. Unbounded in input size, sample size and seed',
-    'level_note': 'relative to: soundness of the wpe loop rule (A-PGCL), math/rand.Intn uniform on [0,n) (A-RAND), the VC generator, go/ssa, the SMT solvers. Tree generators: the insertion branch (uniform) resp. tip (Yule) is drawn by one rand.Intn over exactly the candidates created so far, and every branch/tip created becomes a candidate exactly once. Shuffles (ShuffleTips, RotateNeighbors) are not under contract for uniformity',
+    'level_note': 'relative to: soundness of the wpe loop rule (A-PGCL), math/rand.Intn uniform on [0,n) (A-RAND), the VC generator, go/ssa, the SMT solvers. Tree generators: the insertion branch (uniform) resp. tip (Yule) is drawn by one rand.Intn over exactly the candidates created so far, and every branch/tip created becomes a candidate exactly once. ShuffleTips applies one rand.Perm of all names position by position; RotateNeighbors is the Fisher-Yates step (slot i exchanged with a slot drawn among 0..i, nothing else moves)',
     'packages': ['./tree', './hashmap', './io/...', './support', './acr', './asr', './cmd'],
     'functions': [('cmd.randomTips', {'only': ['callsite', 'step', 'inv', 'post', 'pre', 'bounds', 'nil', 'loopframe', 'frame']}),
                   ('cmd.sampleCmd.RunE', {'only': ['callsite', 'step', 'inv', 'nilchan']}),
                   ('tree.RandomUniformBinaryTree', {'match': [r'^callsite\.math/rand', r'^callsite\..*GraftTipOnEdge', r'^step']}),
-                  ('tree.RandomYuleBinaryTree', {'match': [r'^callsite\.math/rand', r'^callsite\..*GraftTipOnEdge', r'^step']})],
+                  ('tree.RandomYuleBinaryTree', {'match': [r'^callsite\.math/rand', r'^callsite\..*GraftTipOnEdge', r'^step']}),
+                  ('(*tree.Tree).ShuffleTips', {'match': [r'^callsite', r'^post']}),
+                  '(*tree.Node).RotateNeighbors'],
     'lemma_files': ['cmd'],
     'trusted_base': TB_COMMON + ['A-PGCL: weakest pre-expectation calculus (loop rule with invariant expectation)', 'A-RAND: rand.Intn(n) uniform on [0,n)'],
     'assumptions': A_COMMON,
-    'not_decided': ['uniformity over labelled topologies of RandomUniformBinaryTree (counting lemma)', 'quality of math/rand', 'ShuffleTips / RotateNeighbors permutations: not yet under contract'],
+    'not_decided': ['uniformity over labelled topologies of RandomUniformBinaryTree (counting lemma)', 'quality of math/rand', 'that n! permutations are equiprobable given uniform draws (textbook Fisher-Yates counting argument; A-RAND for rand.Perm)'],
     'technique': 'contract-based deductive verification: loop bodies proved equal to the abstract reservoir step (VCs over go/ssa, z3/cvc5); expectation identities as real-arithmetic lemmas',
 }
 
